@@ -12,7 +12,7 @@ RULE = ('the real fabric with 1-3 subscriber queues; 1-2 client threads publish 
         '(the lag is the injected fault); oracle evaluated at every get of a delivery thread on the real contents of that '
         'fabric queue: no queued event has a smaller priority number than the one taken, and no queued event of equal '
         'priority was published before it (publish call returned before the other publish call began - for overlapping '
-        'publish calls of two threads no order is demanded). Non-trivial = a get that saw >= 3 queued items with a priority '
+        'publish calls of two threads no order is demanded); the same rule is checked again on the order in which the events arrive in each subscriber queue. Non-trivial = a get that saw >= 3 queued items with a priority '
         'tie; distinct = distinct (priority sequence, queue length at get) tuples.')
 ASSUMPTIONS = ['no fabric stop in this stratum (the stop signal uses priority 1 by design)']
 PROBES = ['fabric_get_with_3_or_more_items', 'fabric_get_with_priority_tie']
@@ -63,6 +63,47 @@ def shrink_candidates(sc):
     yield dict(sc, queues=sc['queues'][:nq], clients=[[o for o in s if not (o[0] == 'subscribe' and o[1] >= nq)] for s in cl])
 
 
+def arrival_order(run, sim, res):
+  """the same rule seen from the subscribers: if Y had to go before X (smaller priority number, or equal
+  priority and published earlier) and Y was already waiting in the fabric queue when the delivery thread
+  last took something before it delivered X, then X must not arrive before Y"""
+  f = run.fabric
+  if f is None:
+    return
+  for role, pq in (('fabric.fifo', f.fifo_fabric_queue), ('fabric.lifo', f.lifo_fabric_queue)):
+    label = pq._label
+    put_seq, gets = {}, []
+    for seq, tn, kind, lab, op, detail in sim.history:
+      if kind == 'pqueue' and lab == label:
+        if op == 'put' and detail and detail[2] is not None:
+          put_seq.setdefault(detail[2], seq)
+        elif op == 'get' and tn.split('#')[0] == role:
+          gets.append(seq)
+    per_queue = {}
+    for seq, r, qi, op, uid, tn in run.deliveries():
+      if r == role:
+        per_queue.setdefault(qi, []).append((seq, uid))
+    for qi, arr in sorted(per_queue.items()):
+      for i in range(len(arr)):
+        sx, x = arr[i]
+        before = [g for g in gets if g < sx]
+        if not before:
+          continue
+        g = before[-1]
+        px = run.pubs.get(x)
+        for j in range(i + 1, len(arr)):
+          sy, y = arr[j]
+          py = run.pubs.get(y)
+          if px is None or py is None or y == x or put_seq.get(y, 10 ** 12) >= g:
+            continue
+          first = py['prio'] < px['prio'] or (py['prio'] == px['prio'] and py['end'] is not None and py['end'] < px['begin'])
+          if first:
+            res.violate('arrival-order', {'tie': py['prio'] == px['prio']},
+                        'queue q%d received %s (priority %s) before %s (priority %s) from the %s thread although %s was already waiting in the fabric and had to go first; arrivals: %s' % (
+                          qi, x, px['prio'], y, py['prio'], role, y, [u for _, u in arr]))
+            return
+
+
 def execute(sc, sched):
   res = RunResult()
   run, sim, reason = fw.run_fabric(sc, sched)
@@ -80,6 +121,8 @@ def execute(sc, sched):
                   'the %s thread took event %s (priority %s) while event %s (priority %s%s) was still queued (%d items in %s); publications: %s' % (
                     'fifo' if v[5].endswith('#1') else 'lifo', v[1], v[3], v[2], v[4], ', published earlier' if v[0] != 'priority' else '', v[6], v[5],
                     [(u, p['prio'], p['client']) for u, p in sorted(run.pubs.items(), key=lambda kv: kv[1]['begin'])]))
+    if res.outcome == 'ok':
+      arrival_order(run, sim, res)
     f = run.fabric
     for pq in ((f.fifo_fabric_queue, f.lifo_fabric_queue) if f is not None else ()):
       for (prio, st), snap in getattr(pq, 'get_log', []):
